@@ -79,6 +79,7 @@ type rig struct {
 // and returns the reason when the engine refuses the operation before planning.
 func (g *rig) engineRejects(query string) string {
 	req := graphql.Request{Query: query}
+	// (variable values are validated by Execute itself; only the document is checked here)
 	if res, err := req.Normalize(g.sch); err != nil {
 		return err.Error()
 	} else if !res.Successful {
@@ -102,11 +103,17 @@ type execResult struct {
 
 // exec runs one operation. Executions are serialised per rig so that the recorded RPC list
 // belongs to exactly this operation.
-func (g *rig) exec(query string) (res execResult) {
+func (g *rig) exec(query string) execResult { return g.execVars(query, "") }
+
+// execVars runs one operation with a JSON object of variables ("" = none).
+func (g *rig) execVars(query, vars string) (res execResult) {
 	g.mu.Lock()
 	defer g.mu.Unlock()
 	g.conn.take()
 	req := graphql.Request{Query: query}
+	if vars != "" {
+		req.Variables = json.RawMessage(vars)
+	}
 	wr := graphql.NewEngineResultWriter()
 	func() {
 		defer func() {
